@@ -359,8 +359,15 @@ def oracle_c03(case, out):
         answers = [r for r in res if r["status"] == 200]
         if err and not answers:
             continue          # not a C03 matter (C04 judges the grammar)
-        if len(answers) > len(asked):
-            return "c%d: %d final responses for %d requests (duplication)" % (c, len(answers), len(asked))
+        # with an expect-continue handler AND a chunk handler registered the head of a chunked Expect request reaches
+        # the application through the expect-continue event only (documented: that handler is a RequestHandler)
+        cont_only = 0
+        if str(o.get("conth")) == "1" and str(o.get("chunkh")) == "1":
+            cont_only = sum(1 for (_, k, l) in ct.events if k == "continue" and " chunked=1" in l)
+        if len(answers) > len(asked) + cont_only:
+            return "c%d: %d final responses for %d requests (duplication)" % (c, len(answers), len(asked) + cont_only)
+        if cont_only:
+            continue
         for (k, is_head), r in zip(asked, answers):
             body = b"r%d" % k
             if is_head:
